@@ -117,6 +117,10 @@ def _classify_use(name: ast.AST, parents, meth=None) -> str:
         return f"attribute .{p.attr}"
     if isinstance(p, ast.FormattedValue):
         return "repr"
+    if isinstance(p, ast.Call) and meth is not None and len(p.args) == 1 and not p.keywords:
+        r = meth.module.pkg.resolve_expr_global(meth.module, p.func)
+        if r.kind == "lib" and r.qual.endswith("._core.borrow"):
+            return "iterate"  # the internal borrow only iterates its argument (R07.4)
     if isinstance(p, ast.Call):
         return f"passed to {norm(p.func)}()"
     if isinstance(p, (ast.AsyncFor, ast.For)) and p.iter is name:
@@ -135,6 +139,8 @@ def r07_1(ctx, pkg: Package, report: bool, fail_rule: str = "R07.1") -> int:
                 break
         pname = init.param_names()[1] if init is not None and len(init.param_names()) > 1 else None
         for meth in info.methods.values():
+            if pkg is ctx.pkg:
+                meth = ctx.inlined(meth)  # private helpers that are handed the iterator are looked into
             parents = _parents(meth.node)
             for n in ast.walk(meth.node):
                 underlying = False
@@ -165,8 +171,12 @@ class _BorrowOps:
     env['@f:<name>']), ('gen', ITER) — a generator expression that only iterates ITER and
     passes its items on —, ('meth', obj, name) and ('call', callee)."""
 
-    def __init__(self, has: bool):
+    def __init__(self, has: bool, consts: Optional[dict] = None):
         self.has = has  # does the underlying iterator have asend/athrow?
+        self.consts = consts or {}
+
+    def name(self, ident, env):
+        return self.consts.get(ident, UNKNOWN)  # module-level constants (tuples of method names)
 
     def attr(self, value, name, node, env):
         if value == "SELF":
@@ -288,9 +298,8 @@ def _init_outcomes(ctx, has: bool):
     info = ctx.pkg.cls(BORROW_CLASSES[0])
     init = info.methods["__init__"]
     me, pname = init.param_names()[0], init.param_names()[1]
-    ops = _BorrowOps(has)
-    env = dict(_module_constants(init.module))
-    env.update({me: "SELF", pname: "ITER"})
+    ops = _BorrowOps(has, _module_constants(init.module))
+    env = {me: "SELF", pname: "ITER"}
     return init, Machine(cfg_of(init), ops, resolver=make_resolver(ctx, init, ops)).run(env)
 
 
@@ -351,9 +360,8 @@ def r07_3(ctx) -> None:
         for oc in outs:
             if oc.terminal.kind != "exit":
                 continue
-            ops = _BorrowOps(has)
-            env = dict(_module_constants(helper.module))
-            env.update({k: v for k, v in oc.env.items() if k.startswith("@f:")})
+            ops = _BorrowOps(has, _module_constants(helper.module))
+            env = {k: v for k, v in oc.env.items() if k.startswith("@f:")}
             env[helper.param_names()[0]] = "SELF"
             for oc2 in Machine(cfg_of(helper), ops, resolver=make_resolver(ctx, helper, ops)).run(env):
                 ctx.count("borrow_close_cells")
